@@ -12,6 +12,7 @@ import (
 	"github.com/janelia-flyem/dvid/datastore"
 	"github.com/janelia-flyem/dvid/dvid"
 	"verif/harness/dv"
+	"verif/harness/kvhist"
 	"verif/harness/lib"
 )
 
@@ -28,18 +29,9 @@ type dagCase struct {
 	V       int     `json:"v"`
 }
 
-type hop struct {
-	Op      string `json:"op"` // put del commit child get
-	K       int    `json:"k,omitempty"`
-	V       int    `json:"v,omitempty"`
-	X       int    `json:"x,omitempty"`
-	Parents []int  `json:"parents,omitempty"`
-	How     string `json:"how,omitempty"` // newversion | branch | merge
-}
-
 type histCase struct {
-	Kind string `json:"kind"`
-	Ops  []hop  `json:"ops"`
+	Kind string       `json:"kind"`
+	Ops  []kvhist.Hop `json:"ops"`
 }
 
 func coqDag(parents [][]int) string {
@@ -185,240 +177,34 @@ func min(a, b int) int {
 
 // ---- HTTP histories ----
 
-type hist struct {
-	rng    *lib.Rand
-	uuids  []string // index = model version id - 1
-	locked map[int]bool
-	ops    []hop
-	obs    []string
-	root   string
-	nextX  int
-	nb     int
-}
-
-func (h *hist) url(v int, rest string) string { return "/api/node/" + h.uuids[v-1] + "/kv/" + rest }
-
-func (h *hist) record(o hop, ob string) {
-	h.ops = append(h.ops, o)
-	h.obs = append(h.obs, ob)
-}
-
-func (h *hist) get(k, v int) {
-	r := dv.Get(h.url(v, fmt.Sprintf("key/k%d", k)))
-	ob := "ORead ObsErr"
-	switch {
-	case r.Status == 200:
-		x, err := strconv.Atoi(string(r.Body))
-		if err == nil {
-			ob = fmt.Sprintf("ORead (ObsVal %d None)", x)
-		}
-	case r.Status == 404:
-		ob = "ORead ObsNone"
-	}
-	h.record(hop{Op: "get", K: k, V: v}, ob)
-}
-
-func acc(ok bool) string {
-	if ok {
-		return "OAccepted"
-	}
-	return "ORefused"
-}
-
-func (h *hist) put(k, v int) {
-	h.nextX++
-	r := dv.Post(h.url(v, fmt.Sprintf("key/k%d", k)), []byte(strconv.Itoa(h.nextX)))
-	h.record(hop{Op: "put", K: k, V: v, X: h.nextX}, acc(r.Status == 200))
-}
-
-func (h *hist) del(k, v int) {
-	r := dv.Delete(h.url(v, fmt.Sprintf("key/k%d", k)))
-	h.record(hop{Op: "del", K: k, V: v}, acc(r.Status == 200))
-}
-
-func (h *hist) commit(v int) {
-	r := dv.Commit(h.uuids[v-1])
-	if r.Status == 200 {
-		h.locked[v] = true
-	}
-	h.record(hop{Op: "commit", V: v}, acc(r.Status == 200))
-}
-
-func (h *hist) child(how string, parents []int) {
-	var c string
-	var r dv.Resp
-	switch how {
-	case "newversion":
-		c, r = dv.NewVersion(h.uuids[parents[0]-1])
-	case "branch":
-		h.nb++
-		c, r = dv.Branch(h.uuids[parents[0]-1], fmt.Sprintf("b%d", h.nb))
-	default:
-		var us []string
-		for _, p := range parents {
-			us = append(us, h.uuids[p-1])
-		}
-		c, r = dv.Merge(us)
-	}
-	ok := r.Status == 200 && c != ""
-	if ok {
-		h.uuids = append(h.uuids, c)
-	}
-	h.record(hop{Op: "child", Parents: parents, How: how}, acc(ok))
-}
-
-func (h *hist) lockedList() []int {
-	var l []int
-	for v := 1; v <= len(h.uuids); v++ {
-		if h.locked[v] {
-			l = append(l, v)
-		}
-	}
-	return l
-}
-func (h *hist) openList() []int {
-	var l []int
-	for v := 1; v <= len(h.uuids); v++ {
-		if !h.locked[v] {
-			l = append(l, v)
-		}
-	}
-	return l
-}
-
-func (h *hist) sweep(nkeys int) {
-	for v := 1; v <= len(h.uuids); v++ {
-		for k := 0; k < nkeys; k++ {
-			h.get(k, v)
-		}
-	}
-}
-
-func coqOps(ops []hop) string {
-	ss := make([]string, len(ops))
-	for i, o := range ops {
-		switch o.Op {
-		case "put":
-			ss[i] = fmt.Sprintf("OPut %d %d %d", o.K, o.V, o.X)
-		case "del":
-			ss[i] = fmt.Sprintf("ODel %d %d", o.K, o.V)
-		case "get":
-			ss[i] = fmt.Sprintf("OGet %d %d", o.K, o.V)
-		}
-	}
-	return strings.Join(ss, ";")
-}
-
-func runHistory(run *lib.Run, rng *lib.Rand, nops, nkeys int, replay []hop) {
-	h := &hist{rng: rng, locked: map[int]bool{}}
-	root, err := dv.NewRepo("c01")
+func runHistory(run *lib.Run, rng *lib.Rand, nops, nkeys int, replay []kvhist.Hop) {
+	h, err := kvhist.New(rng, "kv")
 	if err != nil {
 		fmt.Fprintln(os.Stderr, err)
 		os.Exit(2)
 	}
-	if err := dv.NewInstance(root, "keyvalue", "kv", nil); err != nil {
-		fmt.Fprintln(os.Stderr, err)
-		os.Exit(2)
-	}
-	h.uuids = []string{root}
 	if replay != nil {
-		for _, o := range replay {
-			switch o.Op {
-			case "put":
-				h.nextX = o.X - 1
-				h.put(o.K, o.V)
-			case "del":
-				h.del(o.K, o.V)
-			case "commit":
-				h.commit(o.V)
-			case "child":
-				h.child(o.How, o.Parents)
-			case "get":
-				h.get(o.K, o.V)
-			}
-		}
+		h.Replay(replay)
 	} else {
-		for i := 0; i < nops; i++ {
-			open, lk := h.openList(), h.lockedList()
-			switch x := rng.Intn(100); {
-			case x < 30 && len(open) > 0:
-				h.put(rng.Intn(nkeys), open[rng.Intn(len(open))])
-			case x < 42 && len(open) > 0:
-				h.del(rng.Intn(nkeys), open[rng.Intn(len(open))])
-			case x < 45 && len(lk) > 0: // write to a committed node: must be refused
-				if rng.Bool() {
-					h.put(rng.Intn(nkeys), lk[rng.Intn(len(lk))])
-				} else {
-					h.del(rng.Intn(nkeys), lk[rng.Intn(len(lk))])
-				}
-			case x < 60 && len(open) > 0:
-				h.commit(open[rng.Intn(len(open))])
-			case x < 72 && len(lk) > 0:
-				how := "branch"
-				if rng.Chance(0.4) {
-					how = "newversion"
-				}
-				h.child(how, []int{lk[rng.Intn(len(lk))]})
-			case x < 84 && len(lk) >= 2:
-				np := 2
-				if len(lk) >= 3 && rng.Chance(0.4) {
-					np = 3
-				}
-				var ps []int
-				seen := map[int]bool{}
-				for len(ps) < np {
-					p := lk[rng.Intn(len(lk))]
-					if !seen[p] {
-						seen[p] = true
-						ps = append(ps, p)
-					}
-				}
-				h.child("merge", ps)
-			default:
-				h.get(rng.Intn(nkeys), 1+rng.Intn(len(h.uuids)))
-			}
-			if len(h.uuids) >= 12 {
-				break
-			}
-		}
-		h.sweep(nkeys)
+		h.Random(nops, nkeys, 12)
+		h.Sweep(nkeys)
 	}
-	// emit
-	ss := make([]string, len(h.ops))
-	for i, o := range h.ops {
-		switch o.Op {
-		case "put":
-			ss[i] = fmt.Sprintf("OPut %d %d %d", o.K, o.V, o.X)
-		case "del":
-			ss[i] = fmt.Sprintf("ODel %d %d", o.K, o.V)
-		case "get":
-			ss[i] = fmt.Sprintf("OGet %d %d", o.K, o.V)
-		case "commit":
-			ss[i] = fmt.Sprintf("OCommit %d %s", o.V, lib.CoqBool(h.obs[i] == "OAccepted"))
-		case "child":
-			ps := make([]string, len(o.Parents))
-			for j, p := range o.Parents {
-				ps[j] = strconv.Itoa(p)
-			}
-			ss[i] = fmt.Sprintf("OChild [%s] %s", strings.Join(ps, ";"), lib.CoqBool(h.obs[i] == "OAccepted"))
-		}
-	}
-	term := fmt.Sprintf("CHist [%s] [%s]", strings.Join(ss, ";"), strings.Join(h.obs, ";"))
+	term := fmt.Sprintf("CHist %s [%s]", h.CoqOps(), strings.Join(h.Obs, ";"))
 	merges := 0
-	for _, o := range h.ops {
+	for _, o := range h.Ops {
 		if o.Op == "child" && len(o.Parents) > 1 {
 			merges++
 		}
 		run.Count("hist-op:" + o.Op)
 	}
-	for _, ob := range h.obs {
+	for _, ob := range h.Obs {
 		if strings.HasPrefix(ob, "ORead") {
 			run.Count("hist-read:" + strings.Fields(strings.Trim(ob[6:], "()"))[0])
 		}
 	}
 	run.Count(fmt.Sprintf("hist-merges:%d", min(merges, 3)))
-	b, _ := json.Marshal(h.ops)
-	run.Add("history", term, histCase{Kind: "history", Ops: h.ops}, "hist/"+string(b))
+	b, _ := json.Marshal(h.Ops)
+	run.Add("history", term, histCase{Kind: "history", Ops: h.Ops}, "hist/"+string(b))
 }
 
 func main() {
@@ -459,13 +245,13 @@ func main() {
 		{Parents: [][]int{{}, {1}, {1}, {3}, {4, 3, 2}}, Entries: []entry{val(1), val(2), val(3), tomb(4)}, V: 5},
 		{Parents: [][]int{{}, {1}, {1}, {2, 3}, {2, 3}, {4, 5}}, Entries: []entry{val(2), val(3), val(5)}, V: 6},
 		{Parents: [][]int{{}, {1}, {1}, {2, 3}, {2, 3}, {5, 4}}, Entries: []entry{val(2), val(3), val(5)}, V: 6},
-		{Parents: [][]int{{}, {1}, {1}, {2, 3}}, Entries: []entry{val(2), val(3)}, V: 4},         // unresolved conflict
-		{Parents: [][]int{{}, {1}, {1}, {2, 3}}, Entries: []entry{val(1), tomb(2)}, V: 4},        // delete on one side hides the root value
-		{Parents: [][]int{{}, {1}, {2}, {3, 1}}, Entries: []entry{val(1), val(3)}, V: 4},         // parent that is an ancestor of the other
+		{Parents: [][]int{{}, {1}, {1}, {2, 3}}, Entries: []entry{val(2), val(3)}, V: 4},  // unresolved conflict
+		{Parents: [][]int{{}, {1}, {1}, {2, 3}}, Entries: []entry{val(1), tomb(2)}, V: 4}, // delete on one side hides the root value
+		{Parents: [][]int{{}, {1}, {2}, {3, 1}}, Entries: []entry{val(1), val(3)}, V: 4},  // parent that is an ancestor of the other
 		{Parents: [][]int{{}, {1}, {2}, {1, 3}}, Entries: []entry{val(1), tomb(3)}, V: 4},
-		{Parents: [][]int{{}, {1}, {2}}, Entries: []entry{val(1), tomb(2)}, V: 3},                // chain, deletion hides
-		{Parents: [][]int{{}, {1}, {1}}, Entries: []entry{val(2)}, V: 3},                         // sibling write invisible
-		{Parents: [][]int{{}, {1}}, Entries: []entry{val(2), tomb(2), val(1)}, V: 2},             // duplicate version in key list: later wins
+		{Parents: [][]int{{}, {1}, {2}}, Entries: []entry{val(1), tomb(2)}, V: 3},    // chain, deletion hides
+		{Parents: [][]int{{}, {1}, {1}}, Entries: []entry{val(2)}, V: 3},             // sibling write invisible
+		{Parents: [][]int{{}, {1}}, Entries: []entry{val(2), tomb(2), val(1)}, V: 2}, // duplicate version in key list: later wins
 	}
 	for _, c := range corpus {
 		c.Kind = "corpus"
